@@ -204,4 +204,39 @@ theorem getAt_enc (xs : List Nat) (g : Good xs) (i : Nat) (hi : i < xs.length) (
     congr 1
     omega
 
+theorem offsets_append (mn w : Nat) (a b : List Nat) : offsets mn w (a ++ b) = offsets mn w a ++ offsets mn w b := by
+  induction a with
+  | nil => simp [offsets]
+  | cons x a ih => simp [offsets, ih]
+
+/-- the block reader on a valid encoding returns exactly the requested slice of the original array -/
+theorem decBlock_enc (xs : List Nat) (g : Good xs) (start blockSize : Nat) (rest : List Nat) :
+    decBlock (enc xs ++ rest) start blockSize = some ((xs.drop start).take blockSize) := by
+  obtain ⟨hmn, _, hw1, hw8, hx⟩ := analyze_facts xs g
+  unfold decBlock
+  rw [readHdr_enc xs g rest]
+  simp only []
+  by_cases c : start ≥ xs.length
+  · rw [if_pos c, List.drop_of_length_le c]; simp
+  · rw [if_neg c, if_neg (by omega)]
+    have e : Tagged.len (analyze xs).minValue + 1 + Tagged.len xs.length + start * (analyze xs).offsetWidth
+        = (Tagged.len (analyze xs).minValue + 1 + Tagged.len xs.length) + start * (analyze xs).offsetWidth := rfl
+    rw [e, ← List.drop_drop, hdr_drop,
+      List.drop_append_of_le_length (by rw [offsets_length]; exact Nat.mul_le_mul_right _ (by omega)), offsets_drop]
+    generalize hys : xs.drop start = ys
+    have hyl : ys.length = xs.length - start := by rw [← hys]; simp
+    have hyx : ∀ y ∈ ys, (analyze xs).minValue ≤ y ∧ y - (analyze xs).minValue < 256 ^ (analyze xs).offsetWidth ∧ y < 2 ^ 64 := by
+      intro y hy; exact hx y (List.mem_of_mem_drop (by rw [hys]; exact hy))
+    have hn : (if start + blockSize > xs.length then xs.length - start else blockSize) = (ys.take blockSize).length := by
+      rw [List.length_take, hyl]
+      split <;> omega
+    rw [hn]
+    have hsplit : offsets (analyze xs).minValue (analyze xs).offsetWidth ys ++ rest =
+        offsets (analyze xs).minValue (analyze xs).offsetWidth (ys.take blockSize) ++
+          (offsets (analyze xs).minValue (analyze xs).offsetWidth (ys.drop blockSize) ++ rest) := by
+      rw [← List.append_assoc, ← offsets_append, List.take_append_drop]
+    rw [hsplit]
+    exact readOffsets_offsets _ _ _ hmn (fun y hy => hyx y (List.mem_of_mem_take hy)) _
+
+
 end Varint.FOR
